@@ -72,6 +72,7 @@ struct Obj {
   bool inconsistent = false;           // a reader accepted an LP that is not self-consistent (already reported): do not solve it
   bool untrusted_model = false;        // the LP came from a faulted file and contains non-finite numbers: no verdict oracles
   bool modified_since_solve = false;   // the LP was modified after the last solve (the next solve is a warm start on a changed LP)
+  bool user_basis = false;             // the current basis was set by the user (setBasis/readBasis), not produced by a solve
   bool free_row_nonbasic = false;      // at the start of the last optimize a free row (-inf,inf) was nonbasic
   // last returned basis (for reuse checks)
   std::vector<int> lastRows, lastCols;
